@@ -636,13 +636,13 @@ def run(ctx):
                        "pyins.filters.run_feedforward_filter (loop body as Kalman recursion; cut shared with C10)", "pyins.filters._compute_feedforward_result")
     ctx.trust("theorem: the Kalman recursion is the conditional mean / BLUE of the linear-Gaussian model (Maybeck vol. 1 ch. 5) -- assumed", "C07, C08 obligations (prerequisites)", "z3, sympy")
     ctx.assume("equality with the one-shot Gauss-Markov solution is inferred from the structure proof plus the theorem; it is observed only by the bounded stand-in")
-    _p0(ctx, py)
+    ctx.guard(_p0, ctx, py)
     C08._joint(ctx, py)
-    _recursion(ctx, py)
-    _result(ctx, py)
+    ctx.guard(_recursion, ctx, py)
+    ctx.guard(_result, ctx, py)
     from props import helpers
     helpers.interpolate_pva(ctx, py, "C11")
-    _standin(ctx, py)
+    ctx.guard(_standin, ctx, py)
 
 
 def replay(obligation, cex):
